@@ -58,6 +58,8 @@ def fold_resolver(ctx: Ctx, sa):
         if isinstance(st, ast.Assign) and len(st.targets) == 1 and isinstance(st.targets[0], ast.Name) \
                 and isinstance(st.value, ast.Constant):
             it.globals[st.targets[0].id] = st.value.value
+        elif isinstance(st, ast.AnnAssign) and isinstance(st.target, ast.Name) and isinstance(st.value, ast.Constant):
+            it.globals[st.target.id] = st.value.value
     ctx.fn("_hooks.py:_resolve_forward_references")
     try:
         it.call(fn, [])
